@@ -7,6 +7,15 @@ VERIF = Path(__file__).resolve().parent.parent
 
 # id -> (implemented, category, technique, level text, level note, design ref)
 P = {
+    'C05': (True, 'fault_enumeration',
+            'source-free failpoints in an audit hook: crash before EVERY mutating file operation of a recorded execution, torn prefixes of every written file, raise points; post-fault oracle in a fresh process',
+            'For each storable data class (JSON dict/list/scalars, numpy, pandas, generator, lazy generator, list of arrays, DirData, ContinuesData, legitimately empty results), for first '
+            'computation and forced recomputation over an existing result: the audited mutating file-system events of the recorded execution are enumerated completely and the process is killed '
+            'before each; each file opened for writing is left with prefixes {0,1,n/2,n-1} of its content at the path the implementation itself opened; run/generator/type-check/serialisation '
+            'raise. A fresh process then checks: has_data => value loads, equals the reference, no run; else exactly one recompute; second request and a downstream task work; '
+            '_error / _tmp work-directory rules for DirData / ContinuesData.',
+            'Crash model = process death between audited operations + torn sequential writes (no power-loss reordering); H5Data/FigureData not exercised; values are the lab\'s small provenance values.',
+            'DESIGN.md §3 C05'),
     'C19': (True, 'exploration',
             'helper value vs real-chain value vs value recomputed from the supplied inputs; invocation log and file monitor for mocked tasks',
             'For tasks of generated pipelines the helpers (create_test_task / TestChain) get the task class, mock values keyed by class or name (real upstream values, or '
